@@ -28,17 +28,40 @@ inline bool family_is_general(int f) { return f >= 3; }
 inline bool family_has_shift(int f) { return f == 2 || f == 4 || f == 5; }
 
 // Common bookkeeping of the counting operators
+struct WorkBoundExceeded
+{
+    long calls;
+};
 struct OpCounters
 {
     mutable long calls = 0;
     mutable long fault_at = -1;
     mutable long fault_nonce = 0;
     mutable long set_shift_calls = 0;
+    mutable long call_limit = -1;    // throw WorkBoundExceeded beyond this many applications (C13)
+    mutable long bad_pointers = 0;   // null / overlapping operand pointers seen
+    mutable bool nan_operand_seen = false;
     void on_call() const
     {
         calls++;
         if (fault_at > 0 && calls == fault_at)
             throw InjectedFault{fault_nonce};
+        if (call_limit >= 0 && calls > call_limit)
+            throw WorkBoundExceeded{calls};
+    }
+    // the operands must be valid, distinct, length-n ranges; every element is read so that sanitizers validate the ranges
+    template <typename S>
+    void check_operands(const S* x_in, S* y_out, Index n) const
+    {
+        if (!x_in || !y_out || (x_in < y_out + n && y_out < x_in + n))
+            bad_pointers++;
+        else
+            for (Index i = 0; i < n; i++)
+            {
+                if (!std::isfinite((double) std::abs(x_in[i])))
+                    nan_operand_seen = true;
+                y_out[i] = S(0);
+            }
     }
 };
 
@@ -66,6 +89,7 @@ public:
     void perform_op(const S* x_in, S* y_out) const
     {
         on_call();
+        check_operands(x_in, y_out, M.cols());
         Eigen::Map<const Vec> x(x_in, M.cols());
         Eigen::Map<Vec> y(y_out, M.rows());
         y = lu.solve(x);
@@ -101,6 +125,7 @@ public:
     void perform_op(const S* x_in, S* y_out) const
     {
         on_call();
+        check_operands(x_in, y_out, M.cols());
         Eigen::Map<const Vec> x(x_in, M.cols());
         Eigen::Map<Vec> y(y_out, M.rows());
         CVec xc = x.template cast<C>();
@@ -124,6 +149,7 @@ public:
     void perform_op(const S* x_in, S* y_out) const
     {
         on_call();
+        check_operands(x_in, y_out, M.cols());
         Eigen::Map<const Vec> x(x_in, M.cols());
         Eigen::Map<Vec> y(y_out, M.rows());
         y.noalias() = M * x;
